@@ -226,6 +226,49 @@ func init() {
 		e.yield("verifrt.Rendezvous")
 		return nil
 	}
+	// errors.Is: target comparison along the Unwrap chain (custom Is methods and
+	// multi-error Unwrap() []error are not modelled: unsupported when met)
+	intrinsics["errors.Is"] = func(e *Engine, fr *frame, fn *ssa.Function, args []Value) Value {
+		err, _ := args[0].(Iface)
+		target, _ := args[1].(Iface)
+		res := e.st.False
+		for depth := 0; depth < 16; depth++ {
+			if err.T == nil {
+				if target.T == nil && depth == 0 {
+					return e.st.True
+				}
+				return res
+			}
+			eq := e.valueEq(err, target)
+			if v, ok := e.syntactic(eq); ok {
+				if v {
+					return e.st.True
+				}
+			} else if e.branch(eq) {
+				return e.st.True
+			}
+			if e.P.Prog.MethodSets.MethodSet(err.T).Lookup(nil, "Is") != nil {
+				panic(unsupported("errors.Is on a type with its own Is method: " + err.T.String()))
+			}
+			if e.P.Prog.MethodSets.MethodSet(err.T).Lookup(nil, "Unwrap") == nil {
+				return res
+			}
+			m := e.P.Prog.LookupMethod(err.T, nil, "Unwrap")
+			if m.Signature.Results().Len() != 1 {
+				panic(unsupported("errors.Is: Unwrap of unexpected shape on " + err.T.String()))
+			}
+			if _, isSlice := m.Signature.Results().At(0).Type().Underlying().(*types.Slice); isSlice {
+				panic(unsupported("errors.Is: Unwrap() []error on " + err.T.String()))
+			}
+			next, _ := e.callFunction(fr, m, []Value{err.V}, nil).(Iface)
+			err = next
+		}
+		panic(unsupported("errors.Is: Unwrap chain longer than 16"))
+	}
+	intrinsics[vrt+"Ticks"] = func(e *Engine, fr *frame, fn *ssa.Function, args []Value) Value {
+		e.ticks = int(e.concretize(e.asInt(args[0]), 0, 64, "verifrt.Ticks"))
+		return nil
+	}
 	intrinsics[vrt+"WaitAll"] = func(e *Engine, fr *frame, fn *ssa.Function, args []Value) Value {
 		e.waitAll()
 		return nil
@@ -266,12 +309,14 @@ func init() {
 		sec, ns := e.asInt(args[0]), e.asInt(args[1])
 		return e.mkTime(e.st.Bin(OpAdd, e.st.Bin(OpMul, sec, e.st.Const(64, 1000000000)), ns))
 	}
-	// tickers never fire inside a harness run (the tick body is called directly by harnesses)
+	// a ticker fires only as often as the harness grants with verifrt.Ticks(k)
+	// (default 0: never); when it fires relative to the other threads is a
+	// scheduling decision
 	intrinsics["time.NewTicker"] = func(e *Engine, fr *frame, fn *ssa.Function, args []Value) Value {
 		tt := e.P.ByPath["time"].Type("Ticker").Type()
 		p := new(Value)
 		z := e.zero(tt).(Struct)
-		z[0] = &Chan{Cap: 1} // field C
+		z[0] = &Chan{Cap: 1, Ticker: true} // field C
 		*p = z
 		return p
 	}
